@@ -45,6 +45,7 @@ type DeviceSpec struct {
 	ReportPid     bool
 	Transitions   map[string]TransitionSpec
 	ExitOnDoneMs  int
+	FairMQ        bool // the device speaks the FairMQ state machine (control mode fairmq); Transitions are then keyed by device steps
 }
 
 type Step struct {
@@ -272,6 +273,13 @@ func judge(p *Plan, obs []Obs, stderr string, exitCode int, timedOut bool) (fs [
 			deviceHang := false
 			if p.Kind == "direct" && st.Op == "transition" && p.Device.Transitions[st.Event].Outcome == "hang" {
 				deviceHang = true // the device itself never answers: not the executor's doing
+			}
+			if p.Kind == "direct" && p.Device.FairMQ && st.Op == "transition" {
+				for _, ts := range p.Device.Transitions {
+					if ts.Outcome == "hang" {
+						deviceHang = true // one of the device steps behind this transition never answers
+					}
+				}
 			}
 			if !deviceHang {
 				add("request-hangs:"+st.Op+" "+st.Event, "request %q had not returned after %d ms", o.Detail, p.OpTimeoutMs)
@@ -522,8 +530,13 @@ func genPlan(t *rapid.T) Plan {
 		d.ReadyAfterMs = rapid.SampledFrom([]int{0, 0, 400, 1500}).Draw(t, "readyAfter")
 		d.InitialState = rapid.SampledFrom([]string{"STANDBY", "STANDBY", "STANDBY", "STANDBY", "STANDBY", "STANDBY", "ERROR", "DONE"}).Draw(t, "initialState")
 		d.ExitOnDoneMs = rapid.SampledFrom([]int{-1, 0, 0, 300, 2500}).Draw(t, "exitOnDone")
-		for _, ev := range []string{"CONFIGURE", "START", "STOP", "RESET", "EXIT"} {
-			if rapid.IntRange(0, 5).Draw(t, "special-"+ev) == 0 {
+		d.FairMQ = rapid.IntRange(0, 2).Draw(t, "fairmq") == 0
+		events := []string{"CONFIGURE", "START", "STOP", "RESET", "EXIT"}
+		if d.FairMQ {
+			events = []string{"INIT DEVICE", "COMPLETE INIT", "BIND", "CONNECT", "INIT TASK", "RUN", "STOP", "RESET TASK", "RESET DEVICE", "END"}
+		}
+		for _, ev := range events {
+			if rapid.IntRange(0, len(events)).Draw(t, "special-"+ev) == 0 {
 				d.Transitions[ev] = TransitionSpec{Outcome: rapid.SampledFrom([]string{"refuse", "error", "hang", "ok"}).Draw(t, "outcome-"+ev), DelayMs: rapid.SampledFrom([]int{0, 200, 1500}).Draw(t, "tdelay-"+ev)}
 			}
 		}
@@ -591,6 +604,13 @@ func TestFixed(t *testing.T) {
 	vh.Fixed(t, prop, "direct-kill-child-ignores-signals", directPlan(ChildSpec{ExitAfterMs: -1, IgnoreSignals: true}, DeviceSpec{InitialState: "STANDBY", ReportPid: true, ExitOnDoneMs: -1}, await, Step{DelayMs: 300, Op: "kill"}), run)
 	vh.Fixed(t, prop, "direct-kill-pid-unknown", directPlan(ChildSpec{ExitAfterMs: -1, Forks: 1}, DeviceSpec{InitialState: "STANDBY", ReportPid: false, ExitOnDoneMs: -1}, await, Step{DelayMs: 300, Op: "kill"}), run)
 	vh.Fixed(t, prop, "direct-with-user-kill-pid-unknown", directPlan(ChildSpec{ExitAfterMs: -1, Forks: 1, AsUser: true}, DeviceSpec{InitialState: "STANDBY", ReportPid: false, ExitOnDoneMs: -1}, await, Step{DelayMs: 300, Op: "kill"}), run)
+	fmqDev := func(tr map[string]TransitionSpec) DeviceSpec {
+		return DeviceSpec{InitialState: "STANDBY", ReportPid: true, ExitOnDoneMs: 0, FairMQ: true, Transitions: tr}
+	}
+	vh.Fixed(t, prop, "fairmq-walk-and-kill-while-running", directPlan(lives, fmqDev(nil), await, conf, start, Step{DelayMs: 300, Op: "kill"}), run)
+	vh.Fixed(t, prop, "fairmq-kill-device-refuses-reset-device", directPlan(lives, fmqDev(map[string]TransitionSpec{"RESET DEVICE": {Outcome: "refuse"}}), await, conf, start, Step{DelayMs: 300, Op: "kill"}), run)
+	vh.Fixed(t, prop, "fairmq-kill-configured-device-refuses-reset-task", directPlan(ChildSpec{ExitAfterMs: -1, Forks: 1}, fmqDev(map[string]TransitionSpec{"RESET TASK": {Outcome: "refuse"}}), await, conf, Step{DelayMs: 300, Op: "kill"}), run)
+	vh.Fixed(t, prop, "fairmq-configure-stuck-at-bind-then-kill", directPlan(lives, fmqDev(map[string]TransitionSpec{"BIND": {Outcome: "refuse"}}), await, conf, Step{DelayMs: 300, Op: "kill"}), run)
 	vh.Fixed(t, prop, "direct-kill-with-forks", directPlan(ChildSpec{ExitAfterMs: -1, Forks: 2}, readyDev, await, Step{DelayMs: 300, Op: "kill"}), run)
 	vh.Fixed(t, prop, "direct-kill-after-child-died", directPlan(ChildSpec{ExitAfterMs: 300, ExitCode: 1}, readyDev, await, Step{DelayMs: 1000, Op: "kill"}), run)
 	vh.Fixed(t, prop, "direct-kill-device-hangs-on-stop", directPlan(lives, DeviceSpec{InitialState: "STANDBY", ReportPid: true, ExitOnDoneMs: 0, Transitions: map[string]TransitionSpec{"STOP": {Outcome: "hang"}}}, await, conf, start, Step{DelayMs: 300, Op: "kill"}), run)
